@@ -117,6 +117,9 @@ func hoExecute(side, n int, scenario string, choices []int, r *Rng) *hoRun {
 			from = 2
 		case "skiplast":
 			to = n
+		case "skipall": // the whole first batch is outside the range: processBlock starts a second batch
+			nb = 2 * n
+			from = n + 1
 		}
 		sink := &faultSink{}
 		w, _ := kio.NewWriter(sink, "NONE", "NONE", bs, 1, 32, 0, false)
@@ -353,7 +356,7 @@ func runC07(c *Ctx, _ []string) {
 	}
 	// exhaustive DFS over schedules x one injected failure, for 2 tasks (and 3 within a budget)
 	budget := 1200 * c.Scale
-	exh := []scen{{kio.VerifEnc, 2, "plain"}, {kio.VerifDec, 2, "plain"}, {kio.VerifDec, 2, "eos"}, {kio.VerifDec, 2, "skipfirst"}, {kio.VerifDec, 2, "skiplast"}}
+	exh := []scen{{kio.VerifEnc, 2, "plain"}, {kio.VerifDec, 2, "plain"}, {kio.VerifDec, 2, "eos"}, {kio.VerifDec, 2, "skipfirst"}, {kio.VerifDec, 2, "skiplast"}, {kio.VerifDec, 2, "skipall"}}
 	exhaustive := true
 	for _, sc := range exh {
 		choices := []int{}
@@ -395,7 +398,7 @@ func runC07(c *Ctx, _ []string) {
 	}
 	c.Stats["dfs_exhaustive"] = exhaustive
 	// random schedules for larger batches
-	rnd := []scen{{kio.VerifEnc, 3, "plain"}, {kio.VerifEnc, 4, "plain"}, {kio.VerifDec, 3, "plain"}, {kio.VerifDec, 4, "eos"}, {kio.VerifDec, 3, "skipfirst"}, {kio.VerifDec, 4, "skiplast"}, {kio.VerifDec, 5, "plain"}}
+	rnd := []scen{{kio.VerifEnc, 3, "plain"}, {kio.VerifEnc, 4, "plain"}, {kio.VerifDec, 3, "plain"}, {kio.VerifDec, 4, "eos"}, {kio.VerifDec, 3, "skipfirst"}, {kio.VerifDec, 4, "skiplast"}, {kio.VerifDec, 5, "plain"}, {kio.VerifDec, 3, "skipall"}}
 	for i := 0; i < 150*c.Scale; i++ {
 		sc := rnd[r.Intn(len(rnd))]
 		run := hoExecute(sc.side, sc.n, sc.name, nil, r)
